@@ -20,6 +20,8 @@ HARNESSES = [
     dict(name="sampling", src="props/sampling.cpp", variant="plain"),
     dict(name="opaque", src="props/opaque.cpp", variant="plain"),
     dict(name="gradients", src="props/gradients.cpp", variant="plain"),
+    dict(name="history", src="props/history.cpp", variant="plain"),
+    dict(name="history_asan", src="props/history.cpp", variant="asan"),
     dict(name="glyphs", src="props/glyphs.cpp", variant="plain"),
     dict(name="glyphs_asan", src="props/glyphs.cpp", variant="asan"),
     dict(name="glyphs_small", src="props/glyphs.cpp", variant="asan_smallglyph",
@@ -379,4 +381,25 @@ CHECKS["C17"] = dict(
                  "entries evicted by a thaw leave tombstones like removed ones; 'above the high-water mark' counts glyphs plus tombstones, as the implementation documents (it then dumps the whole table)",
                  "mask formats for composite_glyphs are the ones pixman_glyph_get_mask_format can return (a1, a4, a8, a8r8g8b8)",
                  "the small-table build differs from the shipped one only in the two constants (hook 3)"],
+)
+
+CHECKS["C14"] = dict(
+    level="exploration",
+    rule=("rapidcheck histories (up to ~50 commands) over long-lived source (bits of 7 formats incl. indexed and 10 bpc, or a linear "
+          "gradient), mask, destination and two alpha-map images: set_transform / set_filter (incl. two convolution kernels that "
+          "share size and leading coefficients) / set_repeat / set_clip_region (16- and 32-bit entry, NULL) / has_client_clip / "
+          "source_clipping / set_alpha_map (attach, move, share between owners, detach) / component_alpha / accessors on-off (also on "
+          "the alpha-map images) / set_indexed / set_dither, direct writes into the pixel storage, and composite checkpoints, with "
+          "values from pools of 6 so that repeats and A->B->A returns are common (explicit A,draw,B,draw,A,draw motifs are "
+          "appended). At every checkpoint the request is also drawn on freshly created replicas that receive only the model's "
+          "current values (one setter each) and the current pixel bytes; destinations and destination alpha maps must be identical "
+          "on defined bits. Non-trivial = >= 2 checkpoints, >= 2 different properties of an already-used image changed, and some "
+          "property returned to an earlier value."),
+    jobs=[
+        dict(harness="history", prop="history", cases=T(12000, 250000), procs=T(6, 12)),
+        dict(harness="history_asan", prop="history", cases=T(3000, 60000), procs=T(2, 4)),
+    ],
+    floor=T(50000, 1000000), nt_floor=T(10000, 200000),
+    assumptions=["an alpha-map image attached to two owners is one shared object in the replicas too",
+                 "the replica is built with one setter call per property in a fixed order; equality with the long-lived images is the property"],
 )
